@@ -332,7 +332,7 @@ def run_check(pid, tier, seed):
         meta.setdefault("notes", {})["part_" + pid2] = "%d cases of the %s stream judged for clauses %s" % (m2.get("evaluations", 0), pid2, rx)
         meta["evaluations"] = meta.get("evaluations", 0) + m2.get("evaluations", 0)
         part_fail += [(pid2, od2, i, t) for i, t in hit]
-    known = [k for k in load_known() if k.get("property") == pid and k.get("status") == "known"]
+    known = [k for k in load_known() if (k.get("property") == pid or pid in k.get("also", [])) and k.get("status") == "known"]
     known_tags = {k["match"]: k for k in known}
     mon_fail = [(i, t[4:]) for i, t in fails if t.startswith("mon:")]
     corr_fail = [i for i, t in fails if t.startswith("corr")]
